@@ -27,7 +27,7 @@ WORD_OPS = {"&&": "and", "||": "or"}
 
 
 def pool():
-    return POOL_T if engine.tier() == "thorough" else POOL_Q
+    return POOL_T      # both tiers (seconds)
 
 
 def verdict(r):
